@@ -73,3 +73,33 @@ def align(da=None, model=None, **_):
   want = O.align_options("lrtb", da or "before", (y, h))
   text = f"region origin y={y}% extent h={h}% displayAlign={da or 'before (default)'}, safe_area={sa}: resulting displayAlign {res}, acceptable {sorted(want)}"
   return (res is None or res.value not in want), text
+
+
+def timeline(shape, mask=(), cfg=None, model=None, obligation=None, **_):
+  """proof tier `timeline[shape:mask;cfg]`: the counter-model's timing values and query time, natively"""
+  import logging
+  from fractions import Fraction
+  import ttconv.model as m
+  import ttconv.style_properties as sp
+  from ttconv.isd import ISD
+  import ttconv.filters.doc.lcd as LCD
+  from specs.isd_shapes import SHAPES
+  logging.disable(logging.CRITICAL)
+  model = model or {}
+  vals = {k: Fraction(str(model.get(k, 0) or 0)) for k in mask}
+  t = Fraction(str(model.get("t", 0) or 0))
+  kw = {k: (sp.ColorType(tuple(v)) if isinstance(v, list) else v) for k, v in (cfg or {}).items()}
+
+  def text(doc):
+    isd = ISD.from_model(doc, t)
+    return "".join(e.get_text() if isinstance(e, m.Text) else "\n" for r in isd.iter_regions() for e in r.dfs_iterator() if isinstance(e, (m.Text, m.Br)))
+  a = SHAPES[shape](lambda n: vals.get(n))
+  before = text(a)
+  b = SHAPES[shape](lambda n: vals.get(n))
+  try:
+    LCD.LCDDocFilter(LCD.LCDDocFilterConfig(**kw)).process(b)
+    after = text(b)
+  except Exception as e:  # pylint: disable=broad-except
+    return True, f"shape {shape} with {vals} at t={t}: {type(e).__name__}: {e}"
+  left = [e for e in list(b.iter_regions()) + list(b.get_body().dfs_iterator()) if not isinstance(e, m.Text) and list(e.iter_animation_steps())]
+  return (before != after or bool(left)), f"shape {shape} with {dict((k, str(v)) for k, v in vals.items())} at t={t}: text before {before!r}, after {after!r}; elements with animation steps left: {len(left)}"
